@@ -34,7 +34,8 @@ CHECKS = {
             'components of <= 2 characters over {a, :, \\\\, e-acute} is encoded/decoded by the real code and judged by TLC (round trip, injectivity, conformance).',
             'Cells are 4 fixed (namespace,key) pairs incl. escaped-colon and algorithm namespaces; values v1/v2/empty string. Known finding F4 (trailing backslash) is listed in known_findings.jsonl.'),
     'C11': (MC, '5 C11', 'TLA+ Spec A ListOptimalTrials (incl. partial-metric and NaN trials, three goal configs) exhaustive TLC + replay + traces; '
-            'Pareto.tla: TLC enumerates every point multiset of a small grid and computes front/rank/against by definition; all library Pareto routines executed on every arrangement',
+            'Pareto.tla: TLC enumerates every point multiset of a small grid and computes front/rank/against by definition; all library Pareto routines executed on every arrangement; '
+            'Survival.tla: NSGA-II survival evaluated by TLC for every small population and replayed into NSGA2Survival.select',
             'The service half is model-checked and replayed like C01; the library half is exhaustive over all multisets of <= 3-5 points in {0,1,2(,3)}^d, d <= 3-4, '
             'with -inf/+inf palette, against Naive, Fast (thresholds 1,2,3,n; over Naive and Jax), xla is_frontier/pareto_rank, nsga2._pareto_rank, update_pareto_optimal, GetBestTrials.',
             'JAX variants on a seeded 2-5% sample (dispatch cost); orders above 6 per multiset sampled in quick.'),
@@ -66,7 +67,8 @@ CHECKS = {
             'error for inactive/unknown parameters.',
             'INTEGER parameters declared with add_int_param are compared by value only (their Python type after the wire trip is not fixed by the property).'),
     'C04': (MC, '5 C04', 'Spec B (VizierConcurrent.tla, PlusCal: one step per DataStore call / lock acquisition of every RPC) model-checked with TLC for 500+ call pairs and triples on four prefixes (Serializable, NoStuckOp, Termination); deterministic cooperative scheduler runs the real RPC methods in real threads, yielding before every DataStore call and lock acquisition; schedules '
-            'enumerated by stateless DFS; every execution judged by the linearizability trace spec VizierLin.tla (silent Linearize steps over VizierAtomic.Apply, id renaming) with TLC',
+            'enumerated by stateless DFS; every execution judged by the linearizability trace spec VizierLin.tla (silent Linearize steps over VizierAtomic.Apply, id renaming) with TLC; '
+            'datastore-internal races (SQL: yield at every release of the datastore lock; RAM: every deepcopy made without it); ResourceNames.tla: one accepted spelling per resource (= one lock), every name within 1-2 segment edits of a well-formed one parsed by all five from_name',
             '34 call pairs/triples on prefix states; all schedules for pairs without SuggestTrials, preemption bound 2 for pairs with it (quick), all schedules (thorough): '
             'a trace is accepted iff some serial order of Spec A explains every response, error class and the final stored state up to renaming of trial ids; deadlock = no runnable thread.',
             'Granularity as C04 states: each DataStore method is atomic (it holds the datastore lock). Instrumentation replaces plain attributes of the servicer (datastore, three lock tables); '
